@@ -68,6 +68,7 @@ class Engine:
         self.overrides = {}          # qualname -> f(engine, recv, args, kwargs)
         self.loop_specs = {}         # (qualname, 'While'|'For', ordinal) -> LoopSpec
         self.merge_ifs = False
+        self.opaque_slice = None     # hook: slice of a value of uninterpreted sort (vectors in _solve)
         self.feas_timeout_ms, self.max_paths = feas_timeout_ms, max_paths
         self._seen_obl = set()
         self.obligations = []        # filled by oblige() during exploration (loop obligations) and by contracts
@@ -627,6 +628,14 @@ class Engine:
                 if is_classmethod(n): return BoundMethod(base, owner, n, qual)
                 return FuncRef(mod, n, qual)
             return self.src.class_literal(base.cls, attr)
+        if isinstance(base, PhaseConf):
+            if attr == "get":
+                def pc_get(e, key, default=None, _b=base):
+                    return SV(_b.value(key), "real") if e.decide(_b.contains(key)) else default
+                return Builtin("PhaseConf.get", pc_get)
+            if attr == "keys":
+                return Builtin("PhaseConf.keys", lambda e, _b=base: _b)
+            raise Unsupported("PhaseConf." + attr)
         if isinstance(base, CondStr):
             if attr == "strip": return Builtin("CondStr.strip", lambda e: CondStr(base.segs, True))
             raise Unsupported("CondStr." + attr)
@@ -681,6 +690,8 @@ class Engine:
                 return Seq(base.ln, lambda j, b=base: b.elem(b.ln - 1 - j), base.label)
             if isinstance(base, (list, tuple, str)) and all(v is None or isinstance(v, int) for v in (lo, hi, st)):
                 return base[lo:hi:st]
+            if is_sym(base) and base.sort == "name" and self.opaque_slice is not None:
+                return self.opaque_slice(self, base, lo, hi, st)
             raise Unsupported("slice")
         return self.getitem(base, self.ev(x.slice), x)
 
